@@ -48,6 +48,11 @@ def plan(tier: str, seed: int) -> list[dict]:
         cases.append({"k": "rand", "i": i, "bmb": bmb, "ss": rng.choice([512, 4096]),
                       "n": rng.randrange(1, 12 if bmb <= 4 else 5),
                       "placement": rng.choice(["seq", "rev", "shuffle", "shuffle", "runs"]), "weight": 2})
+    if tier == "quick":
+        # every power-of-two block size of the format at least twice, also in the quick tier
+        for j, bmb in enumerate([16, 64, 128, 256, 16, 64, 128, 256]):
+            cases.append({"k": "rand", "i": 1000 + j, "bmb": bmb, "ss": [512, 4096][j // 4], "n": rng.randrange(2, 5),
+                          "placement": rng.choice(["rev", "shuffle"]), "weight": 3})
     # interleaved sector-bitmap slots: more blocks than the chunk ratio
     inter = [(1, 512), (32, 512), (8, 512), (32, 4096)] if tier == "quick" else [(1, 512), (2, 512), (8, 512), (32, 512), (256, 512), (8, 4096), (32, 4096), (256, 4096), (1, 4096)]
     for j, (bmb, ss) in enumerate(inter):
@@ -174,6 +179,7 @@ def run(case: dict, ctx) -> dict:
         rng, block_size=bs, sector_size=ss, nblocks=n, tail_cut_sectors=tail, states=states, placement=placement,
         tag=rng.getrandbits(48), seqs=rng.choice([(5, 9), (9, 5), (1, 2), (2**40, 3)]), stale=rng.choice(["valid", "valid", "zero"]),
         meta_item_order=rng.choice([None, "shuffle", "rev"]), item_gap=rng.choice([0, 0, 8, 4096]),
+        leave_alloc=rng.random() < 0.4,
         meta_table_order=rng.choice([None, "shuffle", "rev"]), checksums=(bs <= 8 * MB), far_mb=rng.choice([0, 0, 0, 1 << 12, (1 << 20) + 3, 3 << 20, 1 << 30]),
     )
     model = Model(meta["size"], [layer])
